@@ -1,5 +1,7 @@
 import PysphVerif.Lemmas.GaussJordanDet
 import PysphVerif.Lemmas.LinalgHelpers
+import PysphVerif.Lemmas.Eigen3Examples
+import Mathlib.LinearAlgebra.Matrix.NonsingularInverse
 /-!
 # C13 — the small dense linear-algebra helpers solve what they are given
 
@@ -13,7 +15,15 @@ All statements hold for every size `n`, every number `nb` of right-hand sides, e
 flat array that is large enough, over every linearly ordered field `K`, with the literal
 `1e-12` an arbitrary `tol > 0`.  `get2 nt m i j` is `m[nt*i + j]`.
 
-The eigen-decomposition of `linalg3.pyx` is monitored by test (harness), not proved.
+The second half of the file is about `Model/Eigen3.lean`, which transcribes
+`eigen_decomposition` (scaling, `tred2`, `tql2`, the sort, `zero_matrix_case`) and the
+arithmetic part of `get_eigenvalvec` of `pysph/base/linalg3.pyx` and is tied to the compiled
+code bit for bit at `Float`.  Those theorems hold over every linearly ordered field with
+`sqrt` abstract (`SqrtOK`: `0 ≤ sqrt x`, `sqrt x * sqrt x = x` for `x ≥ 0`; satisfied by
+`Real.sqrt`) and `hypot2` abstract (`HypOK`; satisfied by the pinned and by the repaired
+body), for every symmetric input, every branch combination and every number of QL sweeps.
+What they do NOT say: that the QL iteration stops (`EigReturnsStatement`), and anything
+about rounding.
 -/
 set_option linter.unusedSectionVars false
 namespace PysphVerif.C13
@@ -213,5 +223,248 @@ example :
 example : (gjSolve (1/1000000000000 : ℚ) #[1, 1, 0, 1,  1, 1, 0, 1,  1, 1, 1, 1] 3 1
     #[0, 0, 0]).singular = true := by
   decide +kernel
+
+/-! # the 3×3 symmetric eigen-decomposition (`linalg3.pyx`) -/
+
+section Eigen
+open PysphVerif.Eigen3 Matrix
+
+/-- the hypotheses on `sqrt` and `hypot2` used below are satisfiable: `Real.sqrt`, and both
+bodies of `hypot2` (pinned `sqrt(x*x+y*y)`, repaired overflow-safe one) built on it -/
+theorem eig_hyps_satisfiable :
+    SqrtOK Real.sqrt ∧ HypOK (hypotNaive Real.sqrt) ∧ HypOK (hypotSafe abs Real.sqrt) :=
+  ⟨sqrtOK_real, hypOK_naive sqrtOK_real, hypOK_safe sqrtOK_real⟩
+
+/-- both bodies of `hypot2` have the two properties, for any `sqrt` that has its two -/
+theorem eig_hypot_ok {sqrt : K → K} (hs : SqrtOK sqrt) :
+    HypOK (hypotNaive sqrt) ∧ HypOK (hypotSafe abs sqrt) :=
+  ⟨hypOK_naive hs, hypOK_safe hs⟩
+
+/-! ## (a) the fast paths -/
+
+/-- **diagonal fast path of `get_eigenvalvec`**: a symmetric matrix with zero off-diagonal
+entries returns `R = I`, `e = diag A` without iterating, and that is an exact orthonormal
+eigen-decomposition -/
+theorem eig_diag_fast_path (sqrt : K → K) (hyp : K → K → K) (eps big : K) (fuel : Nat)
+    (A : Mat K) (ev : Vec K) (hsym : A.Symm) (h01 : A 0 1 = 0) (h02 : A 0 2 = 0)
+    (h12 : A 1 2 = 0) :
+    (∃ o, getEigenvalvec abs sqrt hyp eps big fuel A ev = .diag o ∧ o.V = idMat ∧
+        o.d = Vec.ofFn (fun i => A i i)) ∧
+    Orthonormal (idMat : Mat K) ∧ IsEigDecomp A idMat (Vec.ofFn fun i => A i i) := by
+  obtain ⟨s1, s2, s3⟩ := hsym
+  refine ⟨⟨⟨idMat, Vec.ofFn (fun i => A i i), [500], []⟩, ?_, rfl, rfl⟩, orthonormal_idMat,
+    isEigDecomp_diag A h01 h02 h12 (s1 ▸ h01) (s2 ▸ h02) (s3 ▸ h12)⟩
+  unfold getEigenvalvec
+  simp [h01, h02, h12]
+
+/-- when the fast path is not taken, `get_eigenvalvec` is `eigen_decomposition` exactly when
+`use_iter` (computed from the eigenvalue triple of the trigonometric `get_eigenvalues`, an
+input here) says so -/
+theorem eig_get_eigenvalvec_dispatch (sqrt : K → K) (hyp : K → K → K) (eps big : K) (fuel : Nat)
+    (A : Mat K) (ev : Vec K) (h : ¬ (A 0 1 = A 0 2 ∧ A 0 2 = A 1 2 ∧ A 1 2 = 0)) :
+    getEigenvalvec abs sqrt hyp eps big fuel A ev =
+      if useIter big A ev then .iter (eigenDecomposition abs sqrt hyp eps fuel A)
+      else .closedForm ev := by
+  unfold getEigenvalvec
+  have : ((A 0 1 == A 0 2) && (A 0 2 == A 1 2) && (A 1 2 == 0)) = false := by
+    simp only [Bool.and_eq_false_iff, beq_eq_false_iff_ne, ne_eq]
+    by_contra hc
+    simp only [not_or, not_not] at hc
+    exact h ⟨hc.1.1, hc.1.2, hc.2⟩
+  rw [this]
+  simp
+
+/-- **`zero_matrix_case`** is taken exactly for the zero matrix (`s = Σ|aᵢⱼ| = 0`), and then
+`V = I`, `d = 0` is an exact decomposition -/
+theorem eig_zero_matrix_case (sqrt : K → K) (hyp : K → K → K) (eps : K) (fuel : Nat) (A : Mat K) :
+    (absSum A = 0 ↔ A = ⟨0, 0, 0, 0, 0, 0, 0, 0, 0⟩) ∧
+    (absSum A = 0 → eigenDecomposition abs sqrt hyp eps fuel A = .ok zeroMatrixCase ∧
+      Orthonormal (zeroMatrixCase : Out K).V ∧
+      IsEigDecomp A (zeroMatrixCase : Out K).V (zeroMatrixCase : Out K).d) := by
+  refine ⟨absSum_eq_zero_iff A, fun h => ⟨eigenDecomposition_zero sqrt hyp eps fuel A h,
+    orthonormal_idMat, ?_⟩⟩
+  rw [(absSum_eq_zero_iff A).mp h]
+  exact isEigDecomp_zero
+
+/-! ## (b) the sort -/
+
+/-- **the sort at the end of `tql2`** applies ONE permutation `σ` to the eigenvalues and to
+the columns of `V`, and leaves `d` ascending -/
+theorem eig_sort_permutes_and_sorts (t : TQ K) : ∃ σ : Equiv.Perm (Fin 3),
+    (∀ j, (sortEig t).d.toF j = t.d.toF (σ j)) ∧
+    (∀ i j, (sortEig t).V.toM i j = t.V.toM i (σ j)) ∧
+    (sortEig t).d 0 ≤ (sortEig t).d 1 ∧ (sortEig t).d 1 ≤ (sortEig t).d 2 := by
+  obtain ⟨σ, hp, h1, h2⟩ := sortEig_spec t
+  exact ⟨σ, hp.1, hp.2, h1, h2⟩
+
+/-- hence the sort preserves `A V = V diag(d)`, orthonormality and `V diag(d) Vᵀ` -/
+theorem eig_sort_preserves (A : Mat K) (t : TQ K) :
+    (IsEigDecomp A t.V t.d → IsEigDecomp A (sortEig t).V (sortEig t).d) ∧
+    (Orthonormal t.V → Orthonormal (sortEig t).V) ∧
+    (sortEig t).V.toM * Matrix.diagonal (sortEig t).d.toF * (sortEig t).V.toMᵀ =
+      t.V.toM * Matrix.diagonal t.d.toF * t.V.toMᵀ := by
+  obtain ⟨σ, hp, _, _⟩ := sortEig_spec t
+  exact ⟨hp.isEigDecomp, hp.orthonormal, recon_permuted hp⟩
+
+/-! ## (c) plane rotations and orthonormality -/
+
+/-- **every plane rotation `tql2` applies** —
+`V[k][i+1] = s V[k][i] + c h; V[k][i] = c V[k][i] - s h` with `c = p/r`, `s = e/r`,
+`r = hypot2(p, e)`, `(p, e) ≠ (0, 0)` — keeps the columns of `V` orthonormal -/
+theorem tql2_rotation_preserves_orthonormal {hyp : K → K → K} (hh : HypOK hyp) (p e : K)
+    (hpe : p ≠ 0 ∨ e ≠ 0) (i : Nat) (hi : i < 2) (V : Mat K) (hV : Orthonormal V) :
+    Orthonormal ((List.range 3).foldl (qlRotV (p / hyp p e) (e / hyp p e) i) V) := by
+  have g := giv_of hh p e hpe
+  have ho := rotM_orth (p / hyp p e) (e / hyp p e) g.f3 i
+  have : i = 0 ∨ i = 1 := by omega
+  rcases this with rfl | rfl
+  · exact orthonormal_mul_rot V _ _ ho.1 (rotV_toM0 _ _ V) hV
+  · exact orthonormal_mul_rot V _ _ ho.1 (rotV_toM1 _ _ V) hV
+
+/-- **`tql2` preserves `VᵀV = I` for every number of iterations** (any `fuel`, any `d`, `e`):
+the rotations are never degenerate because the sub-diagonal entries inside the active block
+are non-zero (they failed `fabs(e[i]) <= eps*tst1`, and stay non-zero from sweep to sweep) -/
+theorem tql2_preserves_orthonormal {hyp : K → K → K} (hh : HypOK hyp) (eps : K) (heps : 0 ≤ eps)
+    (fuel : Nat) (s : St K) (t : TQ K) (hV : Orthonormal s.V)
+    (h : tql2 abs hyp eps fuel s = .ok t) : Orthonormal t.V :=
+  (tql2_spec hyp hh eps heps fuel s t hV (mul_eq_one_comm.mp hV) h).1
+
+/-! ## (d) `tred2` -/
+
+/-- **`tred2`**: for symmetric input the returned `V` is orthogonal and `V T Vᵀ = A`
+(equivalently `Vᵀ A V = T`) with `T` the symmetric tridiagonal matrix with diagonal `d` and
+sub-diagonal `e[1], e[2]` — in all four branch combinations (`scale == 0` or Householder at
+`i = 2` and at `i = 1`); the side conditions the code relies on (`scale ≠ 0 ⇒ h > 0`,
+`g = -sign(f) sqrt(h)`) are proved inside -/
+theorem tred2_orthogonal_tridiagonal {sqrt : K → K} (hs : SqrtOK sqrt) (s : St K)
+    (hsym : s.V.Symm) :
+    Orthonormal (tred2 abs sqrt s).V ∧
+    (tred2 abs sqrt s).V.toM * (tred2 abs sqrt s).V.toMᵀ = 1 ∧
+    s.V.toM = (tred2 abs sqrt s).V.toM * Ttri (tred2 abs sqrt s).d (tred2 abs sqrt s).e *
+      (tred2 abs sqrt s).V.toMᵀ :=
+  tred2_spec hs s hsym
+
+/-! ## (e) `tql2` as an orthogonal similarity -/
+
+/-- **one pass of `while cont`** for any block `l < m < 3` whose inner sub-diagonal entries are
+non-zero: there is an orthogonal `G` with `V' = V G` and `G T' Gᵀ = T - (e[m] dropped)`, where
+`T`, `T'` are the tridiagonal matrices of `(d + f shift, e)` before and after the sweep — the
+implicit-shift formulas (`d[l] = e[l]/(p+r)`, …, `p = -s*s2*c3*el1*e[l]/dl1`) are exact -/
+theorem tql2_sweep_is_similarity {hyp : K → K → K} (hh : HypOK hyp) (l m : Nat) (hlm : l < m)
+    (hm : m < 3) (t : TQ K) (hne : ∀ i, l ≤ i → i < m → t.e i ≠ 0)
+    (hlow : ∀ i, i < l → t.e i = 0) :
+    ∃ G : Matrix (Fin 3) (Fin 3) K, Gᵀ * G = 1 ∧ G * Gᵀ = 1 ∧
+      (qlSweep hyp l m t).V.toM = t.V.toM * G ∧
+      G * Tm l (qlSweep hyp l m t).d (qlSweep hyp l m t).e (qlSweep hyp l m t).f * Gᵀ =
+        Tm l t.d t.e t.f - offM m (t.e m) :=
+  (qlSweep_spec hyp hh l m hlm hm t hne hlow).sim
+
+/-- **`tql2`, partial correctness with the dropped entries made explicit.**  Whatever the
+number of sweeps, if `tql2` returns then
+`V₀ T₀ V₀ᵀ = V diag(d) Vᵀ + Σₖ Wₖ offM(jₖ, xₖ) Wₖᵀ`, the sum running over the sub-diagonal
+entries `xₖ` (position `(jₖ, jₖ+1)`, `Wₖ` = `V` at that moment, orthogonal) that the code
+replaced by `0.0` because `fabs(xₖ) <= eps*tst1` (`TQ.drops`) -/
+theorem tql2_decomposition {hyp : K → K → K} (hh : HypOK hyp) (eps : K) (heps : 0 ≤ eps)
+    (fuel : Nat) (s : St K) (t : TQ K) (hV : Orthonormal s.V)
+    (h : tql2 abs hyp eps fuel s = .ok t) :
+    s.V.toM * Ttri s.d s.e * s.V.toMᵀ =
+      t.V.toM * Matrix.diagonal t.d.toF * t.V.toMᵀ + dropSum t.drops ∧
+    t.d 0 ≤ t.d 1 ∧ t.d 1 ≤ t.d 2 :=
+  (tql2_spec hyp hh eps heps fuel s t hV (mul_eq_one_comm.mp hV) h).2
+
+/-- **`eigen_decomposition`, partial correctness.**  For every symmetric `A` of any
+magnitude, every number of sweeps: if it returns `(V, d)` then `V` is orthonormal, `d` is
+ascending and `A = V diag(d) Vᵀ + (Σ|aᵢⱼ|) · Σₖ Wₖ offM(jₖ, xₖ) Wₖᵀ` -/
+theorem eig_decomposition {sqrt : K → K} {hyp : K → K → K} (hs : SqrtOK sqrt) (hh : HypOK hyp)
+    (eps : K) (heps : 0 ≤ eps) (fuel : Nat) (A : Mat K) (hsym : A.Symm) (o : Out K)
+    (h : eigenDecomposition abs sqrt hyp eps fuel A = .ok o) :
+    Orthonormal o.V ∧
+    A.toM = o.V.toM * Matrix.diagonal o.d.toF * o.V.toMᵀ + absSum A • dropSum o.drops ∧
+    o.d 0 ≤ o.d 1 ∧ o.d 1 ≤ o.d 2 :=
+  eigenDecomposition_spec hs hh eps heps fuel A hsym o h
+
+/-- **exact when nothing non-zero was dropped**: then `A V = V diag(d)` with `VᵀV = I` -/
+theorem eig_decomposition_exact {sqrt : K → K} {hyp : K → K → K} (hs : SqrtOK sqrt)
+    (hh : HypOK hyp) (eps : K) (heps : 0 ≤ eps) (fuel : Nat) (A : Mat K) (hsym : A.Symm)
+    (o : Out K) (h : eigenDecomposition abs sqrt hyp eps fuel A = .ok o)
+    (hdrop : ∀ x ∈ o.drops, x.1 = 0) :
+    Orthonormal o.V ∧ IsEigDecomp A o.V o.d := by
+  obtain ⟨h1, h2, _, _⟩ := eigenDecomposition_spec hs hh eps heps fuel A hsym o h
+  rw [dropSum_eq_zero o.drops hdrop, smul_zero, add_zero] at h2
+  exact ⟨h1, isEigDecomp_of_recon A o.V o.d h1 h2⟩
+
+/-- what is NOT proved: that the QL iteration stops.  (For `eps > 0` it does, by the
+convergence theory of the shifted QL algorithm; the model reports exhaustion of `fuel`
+as `Err.noConv`, the harness has never seen it: ≤ 7 sweeps in 10⁵ matrices.) -/
+def EigReturnsStatement : Prop :=
+  ∀ (eps : ℝ), 0 < eps → ∀ A : Mat ℝ, A.Symm → ∃ fuel o,
+    eigenDecomposition abs Real.sqrt (hypotSafe abs Real.sqrt) eps fuel A = .ok o
+
+/-! ## (f) the scaling pre-pass -/
+
+/-- **any magnitude**: for `c > 0`, `eigen_decomposition(c·A)` normalises to exactly the same
+matrix `A/Σ|aᵢⱼ|` as `eigen_decomposition(A)`: it takes the same path, returns the same `V`
+(and the same error, if any) and `c·d`.  (Not so for `c < 0`: `-A` is another matrix.  At
+`Float` the statement is exact for `c = 2^k` without over/underflow — replayed on the
+compiled code by the harness — and up to rounding otherwise: `s` is not a power of two.) -/
+theorem eig_scaling (sqrt : K → K) (hyp : K → K → K) (eps : K) (fuel : Nat) (c : K) (hc : 0 < c)
+    (A : Mat K) :
+    eigenDecomposition abs sqrt hyp eps fuel (Mat.smul c A) =
+      match eigenDecomposition abs sqrt hyp eps fuel A with
+      | .error err => .error err
+      | .ok o => .ok { o with d := Vec.smul c o.d } :=
+  eigenDecomposition_smul sqrt hyp eps fuel c hc A
+
+/-! ## non-vacuity (exact runs of the model over `ℚ`; `qsqrt` is exact on `p²/q²`) -/
+
+/-- (a) a diagonal matrix meets the hypotheses of `eig_diag_fast_path` -/
+example : (⟨2, 0, 0, 0, -1, 0, 0, 0, 5⟩ : Mat ℚ).Symm ∧
+    (⟨2, 0, 0, 0, -1, 0, 0, 0, 5⟩ : Mat ℚ) 0 1 = 0 :=
+  ⟨⟨rfl, rfl, rfl⟩, rfl⟩
+
+/-- (b) an unsorted triple is sorted, columns move with it -/
+example :
+    let t : TQ ℚ := ⟨⟨1, 2, 3, 4, 5, 6, 7, 8, 9⟩, ⟨3, 1, 2⟩, ⟨0, 0, 0⟩, 0, 0, [], []⟩
+    (sortEig t).d.toList = [1, 2, 3] ∧ (sortEig t).V.toList = [2, 3, 1, 5, 6, 4, 8, 9, 7] := by
+  decide +kernel
+
+/-- (c) a 3-4-5 rotation: `Giv` holds, the rotated identity is still orthonormal -/
+example : Giv (3/5 : ℚ) (4/5) 5 3 4 ∧
+    Orthonormal ((List.range 3).foldl (qlRotV (3/5 : ℚ) (4/5) 0) idMat) := by
+  refine ⟨⟨by norm_num, by norm_num, by norm_num, by norm_num, by norm_num, by norm_num⟩, ?_⟩
+  refine orthonormal_mul_rot idMat _ _ (rotM_orth (3/5 : ℚ) (4/5) (by norm_num) 0).1
+    (rotV_toM0 _ _ _) orthonormal_idMat
+
+/-- (d) `tred2` on a full symmetric matrix whose last row `(3, 4, 5)` has a rational norm:
+Householder at `i = 2` and at `i = 1`; `VᵀV = I` and `V T Vᵀ = A` hold exactly -/
+example : tred2Check ⟨2, 1, 3, 1, -1, 4, 3, 4, 5⟩ [-1/25, 26/25, 5] [0, 43/25, -5]
+    [121, 111, 201, 211] = true := by
+  decide +kernel
+
+/-- (e) the whole routine on a matrix with a Householder step, one QL sweep on the block
+`(1,2)` and a sort swap: returns, nothing non-zero dropped, `A V = V diag d` and `VᵀV = I`
+exactly, `d = (15, 60, 140)` -/
+example : eigCheck 3 ⟨60, 0, 36, 0, 60, 48, 36, 48, 95⟩
+    [-12/25, 4/5, 9/25, -16/25, -3/5, 12/25, 3/5, 0, 4/5] [15, 60, 140] = true := by
+  decide +kernel
+
+/-- (e) plane-strain shape (coupled leading 2×2 block): `scale == 0` at `i = 2`, one sweep
+on the block `(0,1)`, two sort swaps -/
+example : eigCheck 3 ⟨17, -12, 0, -12, 10, 0, 0, 0, 3⟩
+    [-3/5, 0, 4/5, -4/5, 0, -3/5, 0, 1, 0] [1, 3, 26] = true := by
+  decide +kernel
+
+/-- (f) scaling by `c = 7/2`: same `V`, `d` times `c` -/
+example : eigCheck 3 (Mat.smul (7/2) ⟨17, -12, 0, -12, 10, 0, 0, 0, 3⟩)
+    [-3/5, 0, 4/5, -4/5, 0, -3/5, 0, 1, 0] [7/2, 21/2, 91] = true := by
+  decide +kernel
+
+/-- the shift identity and the closing formula of the sweep on concrete numbers:
+`d = (0, 7/12 …)` — hypotheses of `shift_identity` are satisfiable -/
+example : ∃ w : ℚ, w ≠ 0 ∧ (35 : ℚ) - (0 - (-60) / w) = -60 * w :=
+  (shift_identity (0 : ℚ) 35 (-60) (-7/24) (-25/24) (-4/3) (by norm_num) (by norm_num)
+    (by norm_num) (by norm_num)) |> fun h => ⟨-4/3, h.1, h.2⟩
+
+end Eigen
 
 end PysphVerif.C13
